@@ -136,9 +136,10 @@ class WatermarkPoolSink(PoolSink):
       return
 
     do_close = False
-    # This sink is already shutting down
+    # This sink is already shutting down, nothing will use the sink again.
     if self.state == ChannelState.Closed:
       self._current_size -= 1
+      do_close = True
     # One of the underlying sinks failed, shut down
     elif sink.state == ChannelState.Closed:
       self._current_size -= 1
